@@ -39,10 +39,10 @@ type pwPath struct {
 	results   []ssa.Value       // resolved return operands
 	end       string            // return | panic | loop
 	orderKey  string
-	revisits  int               // number of times a block was entered again (loop back edges taken)
+	revisits  int                     // number of times a block was entered again (loop back edges taken)
 	revisited map[*ssa.BasicBlock]int // ... per block
-	loopHead  *ssa.BasicBlock   // for end == loop: the header that was re-entered
-	loopFree  bool              // ... without any undecided branch since the previous arrival (the loop cannot end)
+	loopHead  *ssa.BasicBlock         // for end == loop: the header that was re-entered
+	loopFree  bool                    // ... without any undecided branch since the previous arrival (the loop cannot end)
 	consts    map[ssa.Value]constant.Value
 	alias     map[ssa.Value]ssa.Value
 	tuples    map[ssa.Value][]ssa.Value
@@ -50,7 +50,7 @@ type pwPath struct {
 	stores    map[string]ssa.Value // every store on the path (last value per address), never invalidated
 	seed      func(*pwPath, ssa.Value) (constant.Value, bool)
 	loadHook  func(*pwPath, *ssa.UnOp) (constant.Value, bool) // consulted when a load executes and no store on this path determines it
-	unknown   map[string]bool                               // objects overwritten as a whole by a value that is not tracked
+	unknown   map[string]bool                                 // objects overwritten as a whole by a value that is not tracked
 }
 
 // addrKey is a canonical key for the address of a field of a (resolved)
@@ -145,7 +145,7 @@ type pwState struct {
 	visits    map[*ssa.BasicBlock]int
 	inlined   map[*ssa.Function]bool
 	deferring bool
-	exiting   *ssa.BasicBlock // loop header being left (second arrival)
+	exiting   *ssa.BasicBlock         // loop header being left (second arrival)
 	arrived   map[*ssa.BasicBlock]int // number of decisions at the latest arrival at a block
 }
 
@@ -447,6 +447,7 @@ func (pw *pathWalker) walk(fn *ssa.Function) {
 		work    = []*pwState{st}
 		running = 0
 	)
+	pw.mu = &mu
 	workers := runtime.NumCPU()
 	if workers > 16 {
 		workers = 16
@@ -513,7 +514,6 @@ func (p *pwPath) order() string {
 }
 
 func (pw *pathWalker) runLocked(s *pwState, mu *sync.Mutex) []*pwState {
-	pw.mu = mu
 	return pw.run(s)
 }
 
